@@ -11,7 +11,8 @@ use throttlecrab::{AdaptiveStore, PeriodicStore, ProbabilisticStore, Store};
 pub enum Cfg {
     Periodic { cap: usize, interval_ns: u64 },
     Adaptive { cap: usize, min_ns: u64, max_ns: u64, max_ops: usize },
-    Prob { cap: usize, modulus: u64 },
+    /// `ops`: the operation counter the store starts with (state after that many writes)
+    Prob { cap: usize, modulus: u64, ops: u64 },
 }
 
 impl Cfg {
@@ -43,13 +44,14 @@ impl Cfg {
             _ => Cfg::Prob {
                 cap,
                 modulus: rng.pick(&[0u64, 1, 1, 2, 3, 7, 1000]),
+                ops: 0,
             },
         }
     }
     /// a configuration of the same kind that never sweeps on its own (used as the
     /// "never forgets physically" reference for C17)
     pub fn never_sweeps() -> Cfg {
-        Cfg::Prob { cap: 100, modulus: 0 }
+        Cfg::Prob { cap: 100, modulus: 0, ops: 0 }
     }
 }
 
@@ -99,12 +101,16 @@ impl Shared {
                     .max_operations(*max_ops)
                     .build(),
             ),
-            Cfg::Prob { cap, modulus } => Inner::R(
-                ProbabilisticStore::builder()
+            Cfg::Prob { cap, modulus, ops } => {
+                let mut st = ProbabilisticStore::builder()
                     .capacity(*cap)
                     .cleanup_probability(*modulus)
-                    .build(),
-            ),
+                    .build();
+                if *ops != 0 {
+                    st.verif_set_operations_count(*ops);
+                }
+                Inner::R(st)
+            }
         };
         Shared(Rc::new(RefCell::new(State { inner, trace: vec![], record: true })))
     }
@@ -170,7 +176,7 @@ impl Shared {
                 f("maxops")
             )
         } else {
-            format!("snew prob {}", f("mod"))
+            format!("snew prob {} {}", f("mod"), f("ops"))
         }
     }
     pub fn field(&self, name: &str) -> Option<i128> {
